@@ -457,10 +457,29 @@ def _put_one_constant(
                         )) +
                         f', got {value.__class__.__name__}')
 
-    if (value < 0 if isinstance(value, (int, float)) else value.imag < 0 if isinstance(value, complex) else False):
+    if (
+        value < 0 or (value == 0 and str(value)[0] == '-') if isinstance(value, (int, float))  # -0.0 is also negative source
+        else value.imag < 0 if isinstance(value, complex)
+        else False
+    ):
         raise NodeError('Constant.value cannot be negative')
 
-    self._put_src(repr(value), *self.loc, True)
+    src = repr(value)
+    ln, col, end_ln, end_col = self.loc
+    lines = self.root._lines
+
+    self._put_src(src, ln, col, end_ln, end_col, True)
+
+    end_col = col + len(src)  # primitive source is always single line
+
+    if end_col < len(l := lines[ln]) and (
+        re_alnumdot_alnum.match(src[-1] + l[end_col])  # `1for` -> `Truefor`
+        or (l[end_col] == '.' and src.isdecimal())  # `1.5.real` -> `5.real`
+    ):
+        self._put_src(' ', ln, end_col, ln, end_col, False)
+
+    if col and re_alnumdot_alnum.match(lines[ln][col - 1] + src[0]):  # `not"a"` -> `not1`
+        self._put_src(' ', ln, col, ln, col, False)
 
     ast = self.a
     ast.value = value
